@@ -389,7 +389,7 @@ def _shard_short(shard, seed, tier):
 def replay(case):
     global _current_chooser
     if case["kind"] == "live":
-        p = _shard_live(("live",), 0, "quick")
+        p = _shard_live(("live", case.get("server", "thread")), 0, "quick")
         for k, det, c in p.violations:
             if c.get("sel") == case["sel"] and c.get("secure") == case["secure"]:
                 return ("live", det)
@@ -462,8 +462,12 @@ def _shard_live(shard, seed, tier):
     rig.reset_lazies()
     ctx = ssl.create_default_context(ssl.Purpose.CLIENT_AUTH)
     ctx.load_cert_chain(os.path.join(rig.REPO, "testdata", "demo.crt"), os.path.join(rig.REPO, "testdata", "demo.key"))
-    server = pygopherd.server.ThreadingTCPServer(config, ("127.0.0.1", 0), pygopherd.server.GopherRequestHandler, context=ctx)
+    skind = shard[1] if len(shard) > 1 else "thread"
+    cls = pygopherd.server.ForkingTCPServer if skind == "fork" else pygopherd.server.ThreadingTCPServer
+    server = cls(config, ("127.0.0.1", 0), pygopherd.server.GopherRequestHandler, context=ctx)
+    server.handle_error = lambda *a: None
     server.daemon_threads = True
+    parent = os.getpid()
     t = threading.Thread(target=server.serve_forever, kwargs={"poll_interval": 0.02}, daemon=True)
     t.start()
 
@@ -500,11 +504,11 @@ def _shard_live(shard, seed, tier):
                 ri = inproc.serve(*rig.request(plain, sel))
                 rig.reset_lazies()
                 if sel not in (b"/", b"/z.zip") and not ri.internal_error and _undate(ri.out) != _undate(a):  # (menus carry the port number)
-                    part.violation("live-order|%s|%s" % (plain, sel.decode()), "on a real socket %r via %s arrives as %r (%d bytes); the same request in process yields %r (%d bytes)" % (
+                    part.violation("live-order|%s|%s|%s" % (skind, plain, sel.decode()), "on a real socket %r via %s arrives as %r (%d bytes); the same request in process yields %r (%d bytes)" % (
                         sel, plain, a[:80], len(a), ri.out[:80], len(ri.out)), {"kind": "live", "sel": sel, "secure": secure})
                 part.evaluations += 2
                 part.transitions += 2
-                part.state("live", sel, secure)
+                part.state("live", skind, sel, secure)
                 if secure == "gemini":
                     # no plaintext twin: the body must be the Spartan body (status lines differ by design)
                     a2 = a.split(b"\r\n", 1)[1] if b"\r\n" in a else a
@@ -515,9 +519,11 @@ def _shard_live(shard, seed, tier):
                     same = _undate(a) == _undate(b)
                 part.outcome("live", secure, same, eb is None)
                 if ea or eb or not same:
-                    part.violation("live|%s|%s" % (secure, sel.decode()), "real TLS round trip for %r via %s: %s; plaintext twin (%s) answered %r (%d bytes), over TLS %r (%d bytes)" % (
-                        sel, secure, eb or ea or "answers differ", plain, a[:80], len(a), b[:80], len(b)), {"kind": "live", "sel": sel, "secure": secure})
+                    part.violation("live|%s|%s|%s" % (skind, secure, sel.decode()), "real TLS round trip for %r via %s: %s; plaintext twin (%s) answered %r (%d bytes), over TLS %r (%d bytes)" % (
+                        sel, secure, eb or ea or "answers differ", plain, a[:80], len(a), b[:80], len(b)), {"kind": "live", "sel": sel, "secure": secure, "server": skind})
     finally:
+        if os.getpid() != parent:
+            os._exit(0)
         server.shutdown()
         server.server_close()
         rig.reset_lazies()
@@ -554,7 +560,7 @@ def run(ck):
         shards.append(("variant", ch))
     ck.pmap(_shard, shards)
     bound = 2 if ck.tier == "quick" else 3
-    ck.pmap(_shard_live, [("live",)])
+    ck.pmap(_shard_live, [("live", "thread"), ("live", "fork")])
     ck.pmap(_shard_short, [(p, s, bound) for p in ("gopher", "gopherp", "http", "gemini", "wap") for s in (2 * BLOCK + 7, 3 * BLOCK, BLOCK - 1)])
     ck.rule = ("documents = content classes %s x sizes %s x %d names, fetched through %d protocols under both handler lists; "
                "12 kinds of object (plain, block-aligned, empty, compressed, script output, archive members, mailbox message, menus, not-found) through 4 protocol pairs over real sockets, TLS answer == plaintext answer; plus every pattern of short reads (each read(n) answered n / n-1 / 1 bytes) with <= %d deviations for 3 file sizes x 5 protocols; distinct = (handler list, protocol, expected type, block-aligned, verdict)"
